@@ -17,6 +17,18 @@ def Chain (l : List (Ev D)) : Prop :=
 /-- instants and durations are whole milliseconds -/
 def MsAligned (l : List (Ev D)) : Prop := ∀ e ∈ l, 1000 ∣ e.ts ∧ 1000 ∣ e.dur
 
+/-- instants are whole milliseconds (true of every `Event` object: the timestamp setter floors) -/
+def TsMs (l : List (Ev D)) : Prop := ∀ e ∈ l, 1000 ∣ e.ts
+
+/-- durations are whole milliseconds -/
+def WholeMsDurations (l : List (Ev D)) : Prop := ∀ e ∈ l, 1000 ∣ e.dur
+
+theorem msAligned_of {l : List (Ev D)} (h1 : TsMs l) (h2 : WholeMsDurations l) : MsAligned l :=
+  fun e he => ⟨h1 e he, h2 e he⟩
+
+theorem tsMs_cons {e : Ev D} {r : List (Ev D)} : TsMs (e :: r) ↔ 1000 ∣ e.ts ∧ TsMs r := by
+  simp [TsMs]
+
 /-- half-open coverage `ts ≤ t < ts + dur` -/
 def Covers (e : Ev D) (t : Int) : Prop := e.ts ≤ t ∧ t < e.ts + e.dur
 
@@ -218,56 +230,63 @@ theorem list1_eq (l1 l2 : List (Ev D)) : out1 (unov l1 l2) = l1 := by
   | case6 e1 r1 e2 r2 h1 h2 h3 fst t' hs ih => rw [out1_cons_true, ih]
   | case7 e1 r1 e2 r2 h1 h2 h3 fst hs ih => exact ih
 
-theorem pieces_within (l1 l2 : List (Ev D)) (ha : MsAligned l1) :
+theorem pieces_within (l1 l2 : List (Ev D)) :
+    TsMs l1 → TsMs l2 →
     ∀ x ∈ unov l1 l2, x.1 = false →
       ∃ f ∈ l2, x.2.data = f.data ∧ x.2.id = f.id ∧ f.ts ≤ x.2.ts ∧
         x.2.ts + x.2.dur ≤ f.ts + f.dur := by
   fun_induction unov l1 l2 with
   | case1 l2 =>
-    intro x hx _
+    intro _ _ x hx _
     obtain ⟨f, hf, rfl⟩ := List.mem_map.1 hx
     exact ⟨f, hf, rfl, rfl, Int.le_refl _, Int.le_refl _⟩
   | case2 e1 r1 =>
-    intro x hx hb
+    intro _ _ x hx hb
     obtain ⟨f, hf, rfl⟩ := List.mem_map.1 hx
     simp at hb
   | case3 e1 r1 e2 r2 h ih =>
-    intro x hx hb
+    intro a1 a2 x hx hb
     rcases List.mem_cons.1 hx with rfl | hx
     · exact ⟨e2, List.mem_cons_self, rfl, rfl, Int.le_refl _, Int.le_refl _⟩
-    · obtain ⟨f, hf, h⟩ := ih ha x hx hb
+    · obtain ⟨f, hf, h⟩ := ih a1 (tsMs_cons.1 a2).2 x hx hb
       exact ⟨f, List.mem_cons_of_mem _ hf, h⟩
   | case4 e1 r1 e2 r2 h1 h2 ih =>
-    intro x hx hb
+    intro a1 a2 x hx hb
     rcases List.mem_cons.1 hx with rfl | hx
     · simp at hb
-    · exact ih (msAligned_cons.1 ha).2 x hx hb
+    · exact ih (tsMs_cons.1 a1).2 a2 x hx hb
   | case5 e1 r1 e2 r2 h1 h2 h3 hd t' hs ih =>
-    intro x hx hb
-    obtain ⟨s1, s2, rfl, rfl⟩ := split_aligned (msAligned_cons.1 ha).1.1 hs
+    intro a1 a2 x hx hb
+    have a1' := tsMs_cons.1 a1
+    have a2' := tsMs_cons.1 a2
+    obtain ⟨s1, s2, rfl, rfl⟩ := split_aligned a1'.1 hs
     rcases List.mem_cons.1 hx with rfl | hx
     · exact ⟨e2, List.mem_cons_self, rfl, rfl, Int.le_refl _, by (try simp only); omega⟩
-    · obtain ⟨f, hf, h⟩ := ih ha x hx hb
+    · obtain ⟨f, hf, h⟩ := ih a1 (tsMs_cons.2 ⟨a1'.1, a2'.2⟩) x hx hb
       rcases List.mem_cons.1 hf with rfl | hf
       · exact ⟨e2, List.mem_cons_self, by simpa using h.1, by simpa using h.2.1,
           by have := h.2.2.1; simp only at this; omega, by have := h.2.2.2; simp only at this; omega⟩
       · exact ⟨f, List.mem_cons_of_mem _ hf, h⟩
   | case6 e1 r1 e2 r2 h1 h2 h3 fst t' hs ih =>
-    intro x hx hb
-    have a' := msAligned_cons.1 ha
-    obtain ⟨s1, s2, _, rfl⟩ := split_aligned (Int.dvd_add a'.1.1 a'.1.2) hs
+    intro a1 a2 x hx hb
+    have a1' := tsMs_cons.1 a1
+    have a2' := tsMs_cons.1 a2
+    obtain ⟨s1, s2, _, rfl⟩ := splitEvent_some hs
+    have hfl : 1000 ∣ msFloor (e1.ts + e1.dur) := by unfold msFloor; omega
+    have hle : e2.ts ≤ msFloor (e1.ts + e1.dur) := by
+      have := a2'.1; unfold msFloor; omega
+    have hle2 := msFloor_le (e1.ts + e1.dur)
     rcases List.mem_cons.1 hx with rfl | hx
     · simp at hb
-    · obtain ⟨f, hf, h⟩ := ih a'.2 x hx hb
+    · obtain ⟨f, hf, h⟩ := ih a1'.2 (tsMs_cons.2 ⟨hfl, a2'.2⟩) x hx hb
       rcases List.mem_cons.1 hf with rfl | hf
       · exact ⟨e2, List.mem_cons_self, by simpa using h.1, by simpa using h.2.1,
           by have := h.2.2.1; simp only at this; omega, by have := h.2.2.2; simp only at this; omega⟩
       · exact ⟨f, List.mem_cons_of_mem _ hf, h⟩
   | case7 e1 r1 e2 r2 h1 h2 h3 fst hs ih =>
-    intro x hx hb
-    obtain ⟨f, hf, h⟩ := ih ha x hx hb
+    intro a1 a2 x hx hb
+    obtain ⟨f, hf, h⟩ := ih a1 (tsMs_cons.1 a2).2 x hx hb
     exact ⟨f, List.mem_cons_of_mem _ hf, h⟩
-
 
 /-- nothing is emitted before the earlier of the two heads -/
 theorem out_lower_bound (l1 l2 : List (Ev D)) (lb : Int) :
@@ -412,7 +431,7 @@ theorem not_strictlyInside_of_le {e : Ev D} {r : List (Ev D)} (h : Chain (e :: r
 /-- a zero-length list-two event is returned (as it is) exactly when it is not strictly inside a
     list-one event, and every zero-length list-two output is such an event -/
 theorem zero_length_iff (l1 l2 : List (Ev D)) (f : Ev D) (hf0 : f.dur = 0) :
-    Chain l1 → Chain l2 → MsAligned l1 →
+    Chain l1 → Chain l2 → TsMs l1 →
     ((false, f) ∈ unov l1 l2 ↔ f ∈ l2 ∧ ¬ StrictlyInside l1 f.ts) := by
   fun_induction unov l1 l2 with
   | case1 l2 =>
@@ -431,14 +450,14 @@ theorem zero_length_iff (l1 l2 : List (Ev D)) (f : Ev D) (hf0 : f.dur = 0) :
     grind
   | case4 e1 r1 e2 r2 h1 h2 ih =>
     intro c1 c2 a
-    have ih := ih (chain_cons.1 c1).2.2 c2 (msAligned_cons.1 a).2
+    have ih := ih (chain_cons.1 c1).2.2 c2 (tsMs_cons.1 a).2
     have k : f ∈ e2 :: r2 → e2.ts ≤ f.ts := chain_head_le c2 f
     rw [List.mem_cons, ih, strictlyInside_cons]
     simp only [Prod.mk.injEq, Bool.false_eq_true, false_and, false_or]
     grind
   | case5 e1 r1 e2 r2 h1 h2 h3 hd t' hs ih =>
     intro c1 c2 a
-    obtain ⟨s1, s2, rfl, rfl⟩ := split_aligned (msAligned_cons.1 a).1.1 hs
+    obtain ⟨s1, s2, rfl, rfl⟩ := split_aligned (tsMs_cons.1 a).1 hs
     have ih := ih c1 (chain_replace_head c2 (by (try simp only); omega) (by (try simp only); omega)) a
     rw [List.mem_cons, ih, List.mem_cons, List.mem_cons]
     simp only [Prod.mk.injEq, true_and]
@@ -451,14 +470,16 @@ theorem zero_length_iff (l1 l2 : List (Ev D)) (f : Ev D) (hf0 : f.dur = 0) :
     grind
   | case6 e1 r1 e2 r2 h1 h2 h3 fst t' hs ih =>
     intro c1 c2 a
-    have a' := msAligned_cons.1 a
+    have a' := tsMs_cons.1 a
     have c2' := chain_cons.1 c2
-    obtain ⟨s1, s2, _, rfl⟩ := split_aligned (Int.dvd_add a'.1.1 a'.1.2) hs
+    obtain ⟨s1, s2, _, rfl⟩ := splitEvent_some hs
+    have hle2 := msFloor_le (e1.ts + e1.dur)
     have ih := ih (chain_cons.1 c1).2.2
       (chain_replace_head c2 (by (try simp only); omega) (by (try simp only); omega)) a'.2
     rw [List.mem_cons, ih, List.mem_cons, List.mem_cons, strictlyInside_cons]
     simp only [Prod.mk.injEq, Bool.false_eq_true, false_and, false_or]
-    have n2 : f ≠ { e2 with ts := e1.ts + e1.dur, dur := e2.ts + e2.dur - (e1.ts + e1.dur) } := by
+    have n2 : f ≠ { e2 with ts := msFloor (e1.ts + e1.dur),
+                            dur := e2.ts + e2.dur - (e1.ts + e1.dur) } := by
       intro he; rw [he] at hf0; simp only at hf0; omega
     have n3 : f ≠ e2 := by
       intro he; rw [he] at hf0; omega
@@ -494,5 +515,51 @@ theorem fuel_exists (l1 l2 : List (Ev D)) : ∃ n, unovFuel n l1 l2 = some (unov
   | case7 e1 r1 e2 r2 h1 h2 h3 fst hs ih =>
     obtain ⟨n, hn⟩ := ih
     exact ⟨n + 1, by simp [unovFuel, h1, h2, h3, hs, hn]⟩
+
+/-- whatever the budgeted loop returns is what the total function returns -/
+theorem fuel_sound (l1 l2 : List (Ev D)) :
+    ∀ (n : Nat) (out : List (Bool × Ev D)), unovFuel n l1 l2 = some out → unov l1 l2 = out := by
+  fun_induction unov l1 l2 with
+  | case1 l2 => intro n out h; cases n <;> simpa [unovFuel] using h
+  | case2 e1 r1 => intro n out h; cases n <;> simpa [unovFuel] using h
+  | case3 e1 r1 e2 r2 h ih =>
+    intro n out hf
+    cases n with
+    | zero => simp [unovFuel] at hf
+    | succ n =>
+      simp only [unovFuel, h, if_true, Option.map_eq_some_iff] at hf
+      obtain ⟨o, ho, rfl⟩ := hf
+      rw [ih n o ho]
+  | case4 e1 r1 e2 r2 h1 h2 ih =>
+    intro n out hf
+    cases n with
+    | zero => simp [unovFuel] at hf
+    | succ n =>
+      simp only [unovFuel, h1, h2, if_true, if_false, Option.map_eq_some_iff] at hf
+      obtain ⟨o, ho, rfl⟩ := hf
+      rw [ih n o ho]
+  | case5 e1 r1 e2 r2 h1 h2 h3 hd t' hs ih =>
+    intro n out hf
+    cases n with
+    | zero => simp [unovFuel] at hf
+    | succ n =>
+      simp only [unovFuel, h1, h2, h3, hs, if_true, if_false, Option.map_eq_some_iff] at hf
+      obtain ⟨o, ho, rfl⟩ := hf
+      rw [ih n o ho]
+  | case6 e1 r1 e2 r2 h1 h2 h3 fst t' hs ih =>
+    intro n out hf
+    cases n with
+    | zero => simp [unovFuel] at hf
+    | succ n =>
+      simp only [unovFuel, h1, h2, h3, hs, if_false, Option.map_eq_some_iff] at hf
+      obtain ⟨o, ho, rfl⟩ := hf
+      rw [ih n o ho]
+  | case7 e1 r1 e2 r2 h1 h2 h3 fst hs ih =>
+    intro n out hf
+    cases n with
+    | zero => simp [unovFuel] at hf
+    | succ n =>
+      simp only [unovFuel, h1, h2, h3, hs, if_false] at hf
+      exact ih n out hf
 
 end AwProofs.Unov
